@@ -1,0 +1,47 @@
+#ifndef OCCA_INTERNAL_UTILS_VERIF_HEADER
+#define OCCA_INTERNAL_UTILS_VERIF_HEADER
+
+// Verification hooks: live-object counters for backend objects.
+// Compiled in only with -DLIBOCCA_OCCA_VERIF; otherwise the macros expand to nothing.
+
+#ifdef LIBOCCA_OCCA_VERIF
+#  include <atomic>
+
+namespace occa {
+  namespace verif {
+    enum objectKind {
+      kDevice = 0,
+      kBuffer,
+      kMemory,
+      kMemoryPool,
+      kKernel,
+      kStream,
+      kStreamTag,
+      kObjectKinds
+    };
+
+    struct counters_t {
+      std::atomic<long> constructed[kObjectKinds];
+      std::atomic<long> destroyed[kObjectKinds];
+    };
+
+    inline counters_t& counters() {
+      static counters_t c;
+      return c;
+    }
+
+    inline long live(const int kind) {
+      counters_t &c = counters();
+      return c.constructed[kind].load() - c.destroyed[kind].load();
+    }
+  }
+}
+
+#  define OCCA_VERIF_CONSTRUCTED(KIND) (++::occa::verif::counters().constructed[::occa::verif::KIND])
+#  define OCCA_VERIF_DESTROYED(KIND)   (++::occa::verif::counters().destroyed[::occa::verif::KIND])
+#else
+#  define OCCA_VERIF_CONSTRUCTED(KIND)
+#  define OCCA_VERIF_DESTROYED(KIND)
+#endif
+
+#endif
